@@ -261,6 +261,18 @@ def opening_counts(used):
     return {sym: min([int(np.count_nonzero(u[q::2] == sym)) for q in both], default=0) for sym in (0, 1)}
 
 
+TDIST_SANITY = 0.25      # harness sanity bound on |t_right - t_left - 1| for the single-slot / one-parity members (NOT the statement's band)
+
+
+def par_single_one_parity(name):
+    """isolated single-slot exceptions that all share one slot parity: every rising edge of the record falls on one crossing of the
+    2-slot window and every falling edge on the other.  The statement quantifies over random and PRBS patterns, where both edge
+    directions occur on both crossings, and its 10 % band on the crossing distance was stated for that situation: on these members
+    the clause is not asserted (coordinator decision, see notes); the distance is recorded and held against TDIST_SANITY only"""
+    maj, length, parity, shift, count = par_parse(name.split(':')[0])
+    return length == 1 and parity != 'x'
+
+
 MIN_SLOTS = 24           # spread clause: asserted for a symbol with at least 24 slots (see check_bands)
 ISI_ISOLATED = 0.035     # an isolated single-slot pulse of the harness waveform stays <= 3.5 % of b-a short of its level (self-test)
 
@@ -499,8 +511,10 @@ def amp_class(pp):
 
 
 # ------------------------------------------------------------------ oracle: bands of the statement
-def check_bands(out, a, b, sigma, sps, tag, rare=(), widen=None):
-    """rare: spread clauses (s0 / s1) not asserted; widen: {mu0 / mu1: sampling allowance added to the 8 % band} (parity_sampling)"""
+def check_bands(out, a, b, sigma, sps, tag, rare=(), widen=None, tdist_band=None):
+    """rare: spread clauses (s0 / s1) not asserted; widen: {mu0 / mu1: sampling allowance added to the 8 % band} (parity_sampling);
+    tdist_band: bound on |t_right - t_left - 1| that replaces the 10 % of the statement (the harness' sanity bound for the records
+    the band was not stated for, par_single_one_parity)"""
     widen = widen or {}
     d = b - a
     cls = amp_class(d)
@@ -530,8 +544,9 @@ def check_bands(out, a, b, sigma, sps, tag, rare=(), widen=None):
         v.append((f'eye:threshold-order:{cls}', f'not mu0 < threshold < mu1; {ctxt}'))
     if ok('t_left', 't_right'):
         td = val['t_right'] - val['t_left']
-        if abs(td - 1.0) > BAND_TDIST + 1e-12:
-            v.append((f'eye:crossings-not-one-slot-apart:{cls}', f't_right-t_left={td:g}; {ctxt}'))
+        if abs(td - 1.0) > (BAND_TDIST if tdist_band is None else tdist_band) + 1e-12:
+            v.append((f'eye:crossings-not-one-slot-apart:{cls}', f't_right-t_left={td:g}'
+                      + ('' if tdist_band is None else f' (outside the sanity bound 1 +/- {tdist_band:g})') + f'; {ctxt}'))
         if ok('t_opt') and abs(val['t_opt'] - 0.5 * (val['t_left'] + val['t_right'])) > STEP + 1e-12:
             v.append((f'eye:t_opt-not-midway:{cls}',
                       f't_opt={val["t_opt"]:g} mid={(val["t_left"]+val["t_right"])/2:g}; {ctxt}'))
@@ -673,12 +688,19 @@ def eye_case(case):
     rare = tuple(s for s, n in (('s0', n0), ('s1', n1)) if n < 24)
     if quant and sigma < MIN_SIGMA_COUNTS:               # rounding to whole counts is not small against the noise: no spread clause
         rare = ('s0', 's1')
-    widen, pcls = {}, ''
+    widen, pcls, tband, stats, payload = {}, '', None, {}, None
     if pat.startswith('par-'):                           # parity-structured record: counts per eye opening, class in the keys
         r2, widen = parity_sampling(used, sigma, b - a)
         rare = tuple(sorted(set(rare) | set(r2)))
         pcls = par_class(pat)
-    viol += [(k + (',' + pcls if pcls else ''), m) for k, m in check_bands(base, a, b, sigma, sps, tag, rare, widen)]
+        if par_single_one_parity(pat):                   # crossing distance: recorded, sanity bound only
+            tband = TDIST_SANITY
+            tl, tr = _num(base['t_left']), _num(base['t_right'])
+            if tl is not None and tr is not None and np.isfinite(tl) and np.isfinite(tr):
+                payload = ('tdist-1', pat, sps, SIGMA_PCT[sig_i], float(tr - tl - 1.0))
+                stats = {'par1_one_parity_cases': 1,
+                         'par1_one_parity_outside_10pct': int(abs(tr - tl - 1.0) > BAND_TDIST + 1e-12)}
+    viol += [(k + (',' + pcls if pcls else ''), m) for k, m in check_bands(base, a, b, sigma, sps, tag, rare, widen, tband)]
     obs = [canon(base)]
     ncalls, nskip = 1, 0
     xmax, nmax = float(np.max(np.abs(x))), float(np.max(np.abs(noise)))
@@ -706,7 +728,7 @@ def eye_case(case):
             sfx = ','.join(p_ for p_ in (f'beta={beta_txt}' if struct else '', form) if p_)
             viol += [(k + ',' + sfx, m) for k, m in
                      check_bands(out, alpha * a + beta, alpha * b + beta, alpha * sigma, sps, tag + f' [{sfx}]', rare,
-                                 {k_: alpha * w_ for k_, w_ in widen.items()})]
+                                 {k_: alpha * w_ for k_, w_ in widen.items()}, tband)]
         obs.append(canon(out))
     # one message per key per case
     seen, vv = set(), []
@@ -714,8 +736,8 @@ def eye_case(case):
         if k not in seen:
             seen.add(k)
             vv.append((k, m))
-    return res(viol=vv, obs=tuple(obs), nontrivial=True,
-               stats={'GET_EYE_calls': ncalls, 'equiv_pairs': ncalls - 1, 'band_cases': 1, 'variants_skipped': nskip})
+    return res(viol=vv, obs=tuple(obs), nontrivial=True, payload=payload,
+               stats=dict(stats, GET_EYE_calls=ncalls, equiv_pairs=ncalls - 1, band_cases=1, variants_skipped=nskip))
 
 
 def selftest_case(case):
@@ -810,6 +832,12 @@ def selftest_case(case):
     assert len(par_sparsest()) == 36 and set(par_sparsest()) <= set(fam) and not set(par_sparsest()) & set(reps)
     assert par_parse('par-m1x0n24') == ('m', 1, 'x', 0, 24) and par_class('par-s2e1n12:128') == 'par=s2/one-parity'
     assert par_class('par-m3x0n8:64') == 'par=m3/mixed'
+    assert par_single_one_parity('par-m1e0n24:128') and par_single_one_parity('par-s1o1n8:256')
+    assert not par_single_one_parity('par-m1x0n24:128') and not par_single_one_parity('par-s2e0n12:128') and not par_single_one_parity('par-m3o1n8:64')
+    g88 = dict(good, t_right=0.38, t_opt=-0.06)          # crossings 0.88 slot apart
+    assert check_bands(g88, 0.0, 1.0, 0.01, 8, 'self') and check_bands(g88, 0.0, 1.0, 0.01, 8, 'self', tdist_band=TDIST_SANITY) == []
+    for tr_ in (-1.5, -0.5, 0.2, 0.8):                  # t_right - t_left = -1, 0, 0.7, 1.3: outside the sanity bound as well
+        assert check_bands(dict(good, t_right=tr_, t_opt=(tr_ - 0.5) / 2), 0.0, 1.0, 0.01, 8, 'self', tdist_band=TDIST_SANITY)
     for seed_ in (0, 1):
         for name in fam:
             maj, length, parity, shift, count = par_parse(name.split(':')[0])
@@ -1070,7 +1098,9 @@ def run(ctx):
              'x {as generated, shifted cyclically by one slot} x exception count {8, 12, and 24 for single-slot exceptions} x {128 '
              f'slots; 64 and 256 slots with 8 exceptions}} = {len(par_family())} patterns (positions drawn from VERIF_SEED); same oracles as '
              'part eye; with n = slots of a symbol in the eye opening (slot parity) that holds fewest of them: spread clause asserted for '
-             'n >= 24, level band widened by 4 sigma/sqrt(n) when that exceeds 4.5 % of b-a. quick: one representative per (majority, '
+             'n >= 24, level band widened by 4 sigma/sqrt(n) when that exceeds 4.5 % of b-a; single-slot exceptions on one parity (every '
+             'rising edge on one crossing, every falling edge on the other: not a random / PRBS pattern in that respect): crossing '
+             f'distance recorded and held against the sanity bound 1 +/- {TDIST_SANITY:g} instead of the 10 % of the statement. quick: one representative per (majority, '
              f'length, parity, shift) = {len(par_representatives())} patterns (128 slots, 24 minority slots) at sps 8, (0,1), KMeans seed 0, sigma 0.5 % and '
              f'5 %, and the {len(par_sparsest())} sparsest patterns (256 slots, 8 exceptions) at sigma 5 %; thorough: every pattern x sps x sigma x KMeans '
              'seed for (0,1), every pattern x the other level pairs on the simplest vector')
@@ -1120,7 +1150,17 @@ def run(ctx):
     ctx.space('parity.family_members', len(par_representatives()), quiet=True)
     ctx.space('parity.patterns', len({c[1] for c in pcases}))
     ctx.space('parity.cases', len(pcases))
-    ctx.pmap('eye-parity', eye_case, pcases, horizon=60, chunk=4)
+    pl = [p_ for p_ in ctx.pmap('eye-parity', eye_case, pcases, horizon=60, chunk=4) if p_ is not None]
+    # crossing distance of the single-slot / one-parity members: an observation, not an assertion (beyond the sanity bound)
+    worst = max(pl, key=lambda p_: abs(p_[4]), default=None)
+    by_sigma = {}
+    for p_ in pl:
+        by_sigma[p_[3]] = max(by_sigma.get(p_[3], 0.0), abs(p_[4]))
+    ctx.extra['parity_single_slot_one_parity'] = {
+        'cases': len(pl), 'outside_10pct_band_of_the_statement': sum(abs(p_[4]) > BAND_TDIST + 1e-12 for p_ in pl),
+        'max_abs_tdist_minus_1': None if worst is None else abs(worst[4]),
+        'max_abs_tdist_minus_1_by_sigma_pct': {f'{k:g}': v for k, v in sorted(by_sigma.items())},
+        'worst_case': None if worst is None else list(worst[1:]), 'asserted_sanity_bound': TDIST_SANITY}
     # one long case = 3 ... 6 calls of 0.6 s (idle); generous horizon because the machine is shared; recheck 2 (re-runs are serial)
     ctx.pmap('eye-long', eye_case, enumerate_long(ctx), horizon=600, chunk=1, recheck=2)
     ctx.extra['get_eye_calls'] = ctx.stats.get('GET_EYE_calls', 0)
